@@ -49,8 +49,8 @@ func MarshalValue(self Value, isInner bool) (out interface{}, skipNull bool) {
 				return nil, false
 			}
 			marshaled, skipNull := MarshalValue(*value, true)
-			// skip builtin functions
-			if marshaled != nil && !skipNull {
+			// skip builtin functions, keep `null` / `none` fields (like the elements of a list)
+			if !skipNull {
 				output[key] = marshaled
 			}
 		}
@@ -62,8 +62,8 @@ func MarshalValue(self Value, isInner bool) (out interface{}, skipNull bool) {
 				return nil, false
 			}
 			marshaled, skipNull := MarshalValue(*value, true)
-			// skip builtin functions
-			if marshaled != nil && !skipNull {
+			// skip builtin functions, keep `null` / `none` fields (like the elements of a list)
+			if !skipNull {
 				output[key] = marshaled
 			}
 		}
